@@ -36,7 +36,22 @@ type Genuine struct {
 	// any user of the IdP can have captured.  It stays in the trusted set: whether it may be returned
 	// is for C02-C04; what C01 asks is that its signature vouches for nothing but itself.
 	Stale []string `json:"stale,omitempty"`
+	// Spice: characters that are delicate in XML text, appended to the name identifier, the attribute values
+	// and the session index of every genuine assertion (see spices).  What is returned must be, exactly, what
+	// was signed.
+	Spice string `json:"spice,omitempty"`
 }
+
+var spices = map[string]string{
+	"cr":      " line1\rline2",
+	"crlf":    " a\r\nb\r",
+	"tab-lf":  "\ta\n\nb\t",
+	"markup":  ` <b>&amp;"'</b> ]]> &#13;`,
+	"space":   "   ",
+	"unicode": " \u00fc\u2713\U0001d11e\u0085\u2028",
+}
+
+var spiceNames = []string{"cr", "crlf", "tab-lf", "markup", "space", "unicode"}
 
 var staleKinds = []string{"expired", "not-yet", "audience", "recipient", "inresponseto", "issuer", "confirmation-expired"}
 
@@ -194,6 +209,21 @@ func buildGenuine(g *Genuine, msg int) forge.ResponseSpec {
 	for i := 0; i < g.NAssert; i++ {
 		a := spkit.BaselineAssertion(now, "id-req", "", fmt.Sprintf("id-assert-m%d-%d", msg, i), fmt.Sprintf("genuine-m%d-%d@idp.example.com", msg, i))
 		a.Statements = [][]forge.Attr{{{Name: "uid", Values: []string{fmt.Sprintf("genuine-uid-m%d-%d", msg, i)}}, {Name: "role", Values: []string{"reader", fmt.Sprintf("tenant-m%d-%d", msg, i)}}}}
+		if sp, ok := spices[g.Spice]; ok {
+			a.NameID = forge.S(*a.NameID + sp)
+			for si := range a.Statements {
+				for ai := range a.Statements[si] {
+					for vi := range a.Statements[si][ai].Values {
+						a.Statements[si][ai].Values[vi] += sp
+					}
+				}
+			}
+			for ai := range a.Authn {
+				if a.Authn[ai].SessionIndex != nil {
+					a.Authn[ai].SessionIndex = forge.S(*a.Authn[ai].SessionIndex + sp)
+				}
+			}
+		}
 		if i < len(g.Stale) && g.Stale[i] != "" {
 			makeStale(&a, g.Stale[i])
 		}
@@ -909,6 +939,9 @@ func check(c Case) pbt.Result {
 			break
 		}
 	}
+	if c.G.Spice != "" {
+		res.Classes = append(res.Classes, "delicate-characters-in-signed-values")
+	}
 	kinds := map[string]bool{}
 	for _, op := range c.Ops {
 		kinds[op.Kind] = true
@@ -952,6 +985,9 @@ func check(c Case) pbt.Result {
 		}
 	}
 	if o.Accepted() {
+		if c.G.Spice != "" {
+			res.NonTrivial = true // the exact-content comparison below is exercised on delicate characters
+		}
 		res.Classes = append(res.Classes, "accepted")
 		fp := fpParsed(o.Assertion)
 		if !truth[fp] {
@@ -1049,6 +1085,9 @@ func genGenuine(t *rapid.T, entry string) Genuine {
 			st = rapid.SampledFrom(staleKinds).Draw(t, "stale")
 		}
 		g.Stale = append(g.Stale, st)
+	}
+	if rapid.IntRange(0, 3).Draw(t, "spice?") == 0 {
+		g.Spice = rapid.SampledFrom(spiceNames).Draw(t, "spice")
 	}
 	g.Method = rapid.SampledFrom([]string{"", "", "http://www.w3.org/2000/09/xmldsig#rsa-sha1", "http://www.w3.org/2001/04/xmldsig-more#rsa-sha512"}).Draw(t, "method")
 	g.Canon = rapid.SampledFrom([]string{"", "", "", "exc-comments"}).Draw(t, "canon")
@@ -1262,6 +1301,29 @@ func enumReconfigured(_ string, emit func(Case)) {
 	}
 }
 
+// enumSpice: every class of delicate characters in the signed values x signing layout x encryption x entry x
+// a metadata, a pinned and a fingerprint trust configuration, untransformed: accepted, and returned exactly.
+func enumSpice(_ string, emit func(Case)) {
+	for _, trust := range []string{"meta1", "pinned", "fp256"} {
+		for _, entry := range []string{"xml", "post", "artifact"} {
+			for _, sp := range spiceNames {
+				for _, layout := range []string{"resp", "assert", "both"} {
+					for _, enc := range []bool{false, true} {
+						g := Genuine{NAssert: 1, AsrtSigner: []string{""}, Encrypted: []bool{enc}, Spice: sp}
+						if layout != "assert" {
+							g.RespSigner = "idp"
+						}
+						if layout != "resp" {
+							g.AsrtSigner[0] = "idp"
+						}
+						emit(Case{Trust: trust, Entry: entry, G: g})
+					}
+				}
+			}
+		}
+	}
+}
+
 // enumStaleSibling: two assertions in an unsigned Response; one is genuine and signed but not valid
 // for this SP now (every kind of staleness), the other is unsigned or signed by an untrusted key, in
 // both document orders, the signed one plain or encrypted (encrypted assertions are processed first).
@@ -1289,14 +1351,14 @@ func enumStaleSibling(_ string, emit func(Case)) {
 var prop = &pbt.Prop[Case]{
 	ID: "C01",
 	Rule: "cases: a message built and signed by the harness (layouts Response/Assertion/both/neither/first-only signed, 1-2 assertions, plain or encrypted to the SP, signer in {trusted, second trusted, IdP encryption-only key, untrusted key with the same subject DN}, several signature methods, canonicalisers and KeyInfo styles, optionally inside a signed/unsigned ArtifactResponse) " +
-		"x trust configuration {metadata one cert, two certs + encryption cert, use omitted, pinned certificate, fingerprint sha256/sha512} x entry point {XML, POST, artifact} x attacker program of 0-6 operations " +
+		"x trust configuration {metadata one cert, two certs + encryption cert, use omitted, pinned certificate, fingerprint sha256/sha512, second descriptor, two certificates in one descriptor, other roles of the entity with their own keys, truncated / empty fingerprint (trusts nothing)} x entry point {XML, POST, artifact} x attacker program of 0-6 operations " +
 		"(wrapping macro over the full placement grid, evil copies, move/copy/remove of any element, splicing from a second captured genuine message, ID and Reference URI edits, KeyInfo substitution incl. RSAKeyValue, re-signing with untrusted keys, comment/PI/CDATA splits, namespace tricks, encryption of forged or rearranged assertions to the SP with round-trip hazard tokens). " +
 		"Conditions of genuine and forged assertions are valid for the SP, except that a genuine assertion may be stale (expired, not yet valid, other audience/recipient/request/issuer) beside its siblings; the ServiceProvider value may have served genuine traffic under ANOTHER trust configuration before being reconfigured to the one in force. oracle: whenever an assertion is returned, its identity fingerprint (issuer, name ID, confirmations, conditions, authn and attribute statements) must equal that of an assertion that the harness itself placed under a signature of a key the configured trust accepts. " +
-		"non-trivial: at least one operation, the presented document still carries a signature value, and it contains forged identity content (or no content at all was ever trusted, or the message as built mixes assertions that are covered by a trusted signature with ones that are not). distinct: sha256 of the JSON case.",
+		"non-trivial: at least one operation, the presented document still carries a signature value, and it contains forged identity content (or no content at all was ever trusted, or the message as built mixes assertions that are covered by a trusted signature with ones that are not, or an accepted message carries delicate characters (CR, CRLF, tab/LF, markup, blanks, non-ASCII) in its signed values, which must come back exactly). distinct: sha256 of the JSON case.",
 	Gen:   gen,
 	Check: check,
 	Reset: fix.Reset,
-	Enums: []pbt.Enum[Case]{{Name: "xsw-placement-grid", Each: enumXSWGrid}, {Name: "untrusted-signers", Each: enumUntrusted}, {Name: "fake-signature-elements", Each: enumFakeSignatures}, {Name: "smuggled-descendant-assertions", Each: enumSmuggle}, {Name: "reconfigured-trust", Each: enumReconfigured}, {Name: "stale-signed-sibling", Each: enumStaleSibling}},
+	Enums: []pbt.Enum[Case]{{Name: "xsw-placement-grid", Each: enumXSWGrid}, {Name: "untrusted-signers", Each: enumUntrusted}, {Name: "fake-signature-elements", Each: enumFakeSignatures}, {Name: "smuggled-descendant-assertions", Each: enumSmuggle}, {Name: "reconfigured-trust", Each: enumReconfigured}, {Name: "stale-signed-sibling", Each: enumStaleSibling}, {Name: "delicate-characters-in-signed-values", Each: enumSpice}},
 	Assumptions: []string{
 		"absence of an accepting forgery is shown only for the generated program space",
 		"the dsig clock is pinned inside the fixtures' certificate validity",
